@@ -115,7 +115,9 @@ pub fn prepare_in(b: &Behaviour, dna: &[u16], env: &Env) -> Option<Prepared> {
     }
     let built = gen::build(&mut d, &cfg);
     let mut spec = built.spec;
-    if !env.derive_prefixes.is_empty() {
+    // (a type-level Default expression spells the field names out, so such requests keep their names)
+    let has_type_expr = spec.traits.iter().any(|a| a.expr().is_some());
+    if !env.derive_prefixes.is_empty() && !has_type_expr {
         for v in spec.variants.iter_mut() {
             if v.shape != Shape::Named || v.fields.len() < 2 || !d.chance(50) {
                 continue;
